@@ -323,7 +323,8 @@ def run(ctx):
                'EventLog::new called from %s' % s.fn.path, line=s.line)
 
     # ------------------------------------------------------------------ C01.3
-    app = P.fn('rip_log::EventLog::append')
+    from .common import log_append_body
+    app = log_append_body(P)
     ws = app.calls(r'std::io::Write>::(write_all|write|flush|write_fmt)$|std::io::Write::(write_all|write|flush|write_fmt)$')
     ctx.floor('C01.3', 'writes in EventLog::append', len(ws), 2)
     for s in ws:
